@@ -23,7 +23,9 @@ deriving Repr, DecidableEq
 /-- exception classes Arrow / `ValidatedReader` raise while *reading* request bytes -/
 inductive ParseExc where
   | arrowInvalid | osError | arrowNotImplemented | arrowKeyError | arrowTypeError | arrowOther
-  | ipcError | unicodeDecode | stopIteration
+  | ipcError          -- the request's (first) batch fails `validate()`
+  | ipcErrorLate      -- a batch *after* the first fails `validate()` while the stream is drained
+  | unicodeDecode | stopIteration
 deriving Repr, DecidableEq
 
 /-- exception classes the framework raises while *validating* a well-formed request -/
@@ -137,6 +139,10 @@ structure Tables where
   initParse : ParseExc → Option Nat
   initVal : ValExc → Option Nat
   exchangeParse : ParseExc → Option Nat
+  /-- `_read_request` itself turns a validation failure of the request batch into `RpcError("ProtocolError")` -/
+  readWrapsBatchValidation : Bool
+  /-- `_read_request` turns any failure while materialising names / values into `RpcError("ProtocolError")` -/
+  readWrapsKwargs : Bool
   /-- `_set_http_status` -/
   translatedStatus : Nat
   translatedTo : Nat
